@@ -762,15 +762,35 @@ func (w *WEval) evalFilledMake(mk *ssa.MakeSlice) *Lay {
 				return off(x.X, depth+1)
 			}
 		case *ssa.BinOp:
+			// the index of a range loop (hidden counter + 1)
+			if ph, ok := x.X.(*ssa.Phi); ok && x.Op == token.ADD && isLoopHeader(ph.Block()) && phiStartsAt(ph, -1) {
+				if k, ok := constInt(x.Y); ok && k.Int64() == 1 {
+					l := newTLin()
+					l.addAtom("#i", big.NewInt(1))
+					return l
+				}
+			}
 			switch x.Op {
 			case token.ADD:
 				return off(x.X, depth+1).add(off(x.Y, depth+1), 1)
 			case token.SUB:
 				return off(x.X, depth+1).add(off(x.Y, depth+1), -1)
+			case token.MUL:
+				if k, ok := constInt(x.X); ok {
+					return off(x.Y, depth+1).scale(k)
+				}
+				if k, ok := constInt(x.Y); ok {
+					return off(x.X, depth+1).scale(k)
+				}
 			}
 		case *ssa.Phi:
 			if ch, ok := w.pathPhi[x]; ok {
 				return off(ch, depth+1)
+			}
+			if isLoopHeader(x.Block()) && phiStartsAt(x, 0) && phiStepsByOne(x, x.Block()) {
+				l := newTLin()
+				l.addAtom("#i", big.NewInt(1))
+				return l
 			}
 		case *ssa.Call:
 			if b, ok := x.Call.Value.(*ssa.Builtin); ok {
@@ -786,7 +806,24 @@ func (w *WEval) evalFilledMake(mk *ssa.MakeSlice) *Lay {
 		l.addAtom(w.term(v), big.NewInt(1))
 		return l
 	}
-	inBlock := func(ins ssa.Instruction) bool { return ins.Block() == mk.Block() }
+	// writes happen in the block that makes the buffer, or all of them once per iteration of one range
+	// loop (then the offsets advance by a constant stride and the result is a Loop item)
+	var loopHdr *ssa.BasicBlock
+	loopBad := false
+	inBlock := func(ins ssa.Instruction) bool {
+		if ins.Block() == mk.Block() {
+			return true
+		}
+		hs := dominatingLoopHeaders(ins.Block())
+		if len(hs) != 1 || !unconditionalInLoop(hs[0], ins.Block()) || !mk.Block().Dominates(hs[0]) {
+			return false
+		}
+		if loopHdr != nil && loopHdr != hs[0] {
+			loopBad = true
+		}
+		loopHdr = hs[0]
+		return true
+	}
 	// a use of the buffer (or of a re-slice of it starting at base) as the destination of a writer
 	var uses func(v ssa.Value, base *TLin, depth int) *Lay
 	uses = func(v ssa.Value, base *TLin, depth int) *Lay {
@@ -863,6 +900,53 @@ func (w *WEval) evalFilledMake(mk *ssa.MakeSlice) *Lay {
 	}
 	total := off(mk.Len, 0)
 	cur := constLin(0)
+	if loopHdr != nil {
+		// every write is k*#i + c: inside one iteration the c's tile [0, k) and the buffer is k*len(coll) long
+		if loopBad {
+			return unk("buffer filled in more than one loop")
+		}
+		var stride *big.Int
+		for _, sg := range segs {
+			co := sg.off.Coef["#i"]
+			if co == nil || (stride != nil && stride.Cmp(co) != 0) {
+				return unk("buffer filled in a loop at offsets that do not advance by one stride")
+			}
+			stride = co
+		}
+		strip := func(l *TLin) *TLin {
+			m := newTLin()
+			m.addAtom("#i", new(big.Int).Neg(stride))
+			return l.add(m, 1)
+		}
+		var items []*Lay
+		used := make([]bool, len(segs))
+		for range segs {
+			found := false
+			for i, sg := range segs {
+				if !used[i] && strip(sg.off).equal(cur) {
+					used[i], found = true, true
+					items = append(items, sg.l)
+					cur = cur.add(sg.n, 1)
+					break
+				}
+			}
+			if !found {
+				return unk("per-iteration writes do not tile the stride from offset %s", cur.String())
+			}
+		}
+		strideLin := constLin(0)
+		strideLin.Const.Set(stride)
+		if !cur.equal(strideLin) {
+			return unk("per-iteration writes cover %s of a stride of %s bytes", cur.String(), stride.String())
+		}
+		coll := w.rangeTerm(loopHdr)
+		want := newTLin()
+		want.addAtom("len("+coll+")", stride)
+		if !total.equal(want) {
+			return unk("buffer of length %s filled by a loop over %s with stride %s", total.String(), coll, stride.String())
+		}
+		return &Lay{K: "loop", S: coll, Items: []*Lay{seqOf(items...)}}
+	}
 	var items []*Lay
 	used := make([]bool, len(segs))
 	for range segs {
@@ -1057,7 +1141,46 @@ func (w *WEval) evalCall(c *ssa.Call) *Lay {
 			if len(c.Call.Args) == 1 {
 				return w.eval(c.Call.Args[0])
 			}
-			return seqOf(w.eval(c.Call.Args[0]), w.eval(c.Call.Args[1]))
+			tail := w.eval(c.Call.Args[1])
+			// buf = append(buf, 0, 0, 0, 0); binary.PutUintN(buf[len(buf)-N/8:], v): the zeros just appended are
+			// overwritten in place, in the same block, by the encoding of v
+			if tail.K == "const" && strings.Trim(tail.S, "0") == "" && c.Referrers() != nil {
+				n := len(tail.S) / 2
+				for _, r := range *c.Referrers() {
+					sl, ok := r.(*ssa.Slice)
+					if !ok || sl.High != nil || sl.Low == nil || sl.Referrers() == nil {
+						continue
+					}
+					sub, isSub := sl.Low.(*ssa.BinOp)
+					if !isSub || sub.Op != token.SUB {
+						continue
+					}
+					ln, isLen := sub.X.(*ssa.Call)
+					k, isK := constInt(sub.Y)
+					if !isLen || !isK || !isLenCall(ln) || ln.Call.Args[0] != ssa.Value(c) || int(k.Int64()) != n {
+						continue
+					}
+					for _, u := range *sl.Referrers() {
+						pc, ok := u.(*ssa.Call)
+						if !ok || pc.Call.StaticCallee() == nil || pc.Block() != c.Block() {
+							continue
+						}
+						sc := pc.Call.StaticCallee()
+						if strings.HasPrefix(sc.Name(), "PutUint") && strings.Contains(sc.String(), "encoding/binary") && len(pc.Call.Args) == 3 && pc.Call.Args[1] == ssa.Value(sl) {
+							width := 0
+							fmt.Sscanf(strings.TrimPrefix(sc.Name(), "PutUint"), "%d", &width)
+							if width/8 == n {
+								kk := "le"
+								if strings.Contains(sc.String(), "bigEndian") {
+									kk = "be"
+								}
+								tail = &Lay{K: kk, W: n, S: w.term(pc.Call.Args[2])}
+							}
+						}
+					}
+				}
+			}
+			return seqOf(w.eval(c.Call.Args[0]), tail)
 		}
 		return unk("builtin %s", b.Name())
 	}
